@@ -301,7 +301,7 @@ class Interp:
         if isinstance(v, SymSeq):
             return term(v.len) > 0 if not isinstance(v.len, int) else v.len > 0
         if isinstance(v, Struct):
-            tm = C.STRUCT_TRUTH.get(v.cls) if hasattr(C, "STRUCT_TRUTH") else None
+            tm = C.STRUCT_TRUTH.get(v.cls)
             if tm:
                 return tm(self, v)
             return True
@@ -334,7 +334,7 @@ class Interp:
                 return False
             return zand(*[self.values_eq(x, y) for x, y in zip(ia, ib)])
         if isinstance(a, Struct) or isinstance(b, Struct):
-            eqm = getattr(C, "STRUCT_EQ", {})
+            eqm = C.STRUCT_EQ
             for s in (a, b):
                 if isinstance(s, Struct) and s.cls in eqm:
                     return eqm[s.cls](self, a, b)
@@ -377,7 +377,7 @@ class Interp:
                 return zeq(s, other)
             return False
         if isinstance(a, Struct) or isinstance(b, Struct):
-            ism = getattr(C, "STRUCT_IS", {})
+            ism = C.STRUCT_IS
             for s in (a, b):
                 if isinstance(s, Struct) and s.cls in ism:
                     return ism[s.cls](self, a, b)
@@ -441,7 +441,7 @@ class Interp:
             return z3.Exists([k], z3.And(k >= 0, k < term(container.len),
                                          container.arrs[0][k] == term(x)))
         if isinstance(container, Struct):
-            cm = getattr(C, "STRUCT_CONTAINS", {}).get(container.cls)
+            cm = C.STRUCT_CONTAINS.get(container.cls)
             if cm:
                 return cm(self, container, x)
         raise Unsupported(f"'in' on {type(container).__name__}")
@@ -731,7 +731,7 @@ class Interp:
         g = node.generators[0]
         it = self.eval(g.iter, frame)
         if not isinstance(it, (SymSeq, SymSet, SymMap)) and not \
-                (isinstance(it, Struct) and it.cls in getattr(C, "SYMBOLIC_ITERABLES", ())):
+                (isinstance(it, Struct) and it.cls in C.SYMBOLIC_ITERABLES):
             # concrete: make sure evaluation of the iterable is not repeated
             node._pyvc_iter = None
             return None
@@ -756,7 +756,7 @@ class Interp:
             from .builtins import seq_get
             return [seq_get(self, v, i) for i in range(v.len)]
         if isinstance(v, Struct):
-            itm = getattr(C, "STRUCT_ITER", {}).get(v.cls)
+            itm = C.STRUCT_ITER.get(v.cls)
             if itm:
                 return itm(self, v)
         raise Unsupported(f"iteration over {type(v).__name__} needs a loop contract")
